@@ -443,6 +443,11 @@ def shrink_and_name(ck, binary, nproc, tier, confirmed):
         feats = primary or feats
         if meta.get('cross_typed_keyref') and any(x[0] == 'keyref-not-found' for x in (v or [])):
             feats = feats + ['cross-typed-keyref']
+        if insts[i][1] == 'nested-groups' and meta['scope'] != 'db' and not any(f.startswith('nested-scopes-') for f in feats):
+            # a constraint whose scope element (grp) occurs inside another instance of itself: the value stores of one
+            # constraint are kept per depth and re-used (known findings KF-C10-03/04), every verdict in such a document is
+            # unreliable -- the key says so, so that the same disagreement in a flat document keeps its own key
+            feats = feats + ['scope-nested-in-itself']
         if cls == 'V':
             key = 'C10:accepted-invalid:%s:%s' % (vkey(v), '+'.join(feats) or 'plain')
         elif cls == 'E':
